@@ -741,7 +741,10 @@ fn c12_oracle(sc: &Scenario, ex: &Execution, info: &mut CaseInfo) -> Vec<Finding
     let mut f = orc::delivery(&h);
     f.extend(orc::order(&h));
     f.extend(orc::capacity(&h));
-    let _ = note_stuck(&h, info);
+    f.extend(orc::hangup(&h));
+    // a hang (receiver never woken, producer refused for ever, task never notified) after a
+    // population change is an observable effect of the change
+    f.extend(note_stuck(&h, info));
     f
 }
 
